@@ -24,7 +24,15 @@ META = dict(
     assumptions=['pairing bilinear and non-degenerate on G1 x G2 (hypothesis of verify_iff_unique; sampled by the searcher)',
                  'on-curve points of E(F_p) form a group of prime order r under the model addition (assumed)'],
     rule='distinct op lines sent to both implementation and model whose model answer is not bad-op',
-    explanation='',
+    explanation='73 Lean theorems about the executable model Rangers.Model.Bls14 (G1/G2 marshal+unmarshal with the exact '
+                'length/zero/on-curve logic, VerifySig guard by guard with the pairing as a parameter, scalar/id codecs, '
+                'affine G1 arithmetic, hash-to-G1): acceptance characterised exactly (verify_accept_iff), never panics, '
+                'uniqueness of the accepted signature from bilinearity + trivial kernel (verify_iff_unique), all listed '
+                'rejections, round trips, canonicity (partial + counterexamples = the two known findings), and — given p prime — '
+                'the model arithmetic IS the Mathlib elliptic-curve group law (C14W). Tie: c14facts regenerates constants and '
+                'normalised statement shapes (20 shape obligations); harness runs the real groupsig/bn256 on ~2100 (quick) '
+                'structured + malformed op lines against the compiled model. Searcher: byte-exact uniqueness oracle, round trips, '
+                'bilinearity / non-degeneracy / primality sampled.',
 )
 
 
@@ -80,7 +88,7 @@ def search(ctx, hints):
     if hints.get('broken'):
         keys = 16
     if ctx.thorough():
-        keys *= 6
+        keys *= 25
     cwd = ctx.scratch('c14s')
     rc, so, se = vlib.run([binp, 'mode=search', 'out=' + out, 'keys=%d' % keys], cwd=cwd,
                           env=dict(VERIF_SEED=str(ctx.seed)), timeout=1500)
